@@ -166,4 +166,6 @@ def run(chk, tier):
     chk.expect(ok, "selection", "new_with_ts_cs_options", "adaptive-iff-flexible-and-little-endian", "if flexible && LE { adaptive } else { new_with_override(ts) }", [H.show(x[2], 6) for x in ifs], loc=C.fn_loc(hs))
     ho = fx.method("dicom_parser", "dicom_parser::stateful::decode::StatefulDecoder", "new_with_override")
     chk.expect(any((c or "").endswith("::decoder_for") for c, _ in H.calls(ho["body"])), "selection", "new_with_override", "uses-ts-decoder", "ts.decoder_for()", "ok")
+    # the probe trusts VR::from_binary to recognise exactly the 34 defined two-letter codes (anything else means "not explicit VR")
+    c03.vr_code(chk, fx, fx.variants(C.VR_ENUM))
     chk.undecided.append("token-for-token equality on concrete data sets; ambiguity resolution for streams whose first length bytes spell a compatible VR (excluded by the property)")
